@@ -297,7 +297,7 @@ def run_frame(rep, tier):
 
 # ---------------------------------------------------------------------------------------------------------------------
 RAW = {"onp", "_np", "npla", "ffto", "np_"}
-PLAIN_FUNCS = {"shape", "ndim", "metadata", "iscomplexobj", "result_type", "isscalar", "len", "range", "isinstance", "type", "vspace", "size", "argsort", "argmax", "argmin",
+PLAIN_FUNCS = {"isbox", "shape", "ndim", "metadata", "iscomplexobj", "result_type", "isscalar", "len", "range", "isinstance", "type", "vspace", "size", "argsort", "argmax", "argmin",
                "argpartition", "int", "float", "list", "tuple", "enumerate", "zip", "sorted", "set", "parse_einsum_input", "getattr", "hasattr", "str", "min", "max"}
 PLAIN_ATTRS = {"shape", "ndim", "dtype", "size", "iscomplex"}
 RULE_FILES = ["autograd/numpy/numpy_vjps.py", "autograd/numpy/numpy_jvps.py", "autograd/numpy/linalg.py", "autograd/numpy/fft.py"]
@@ -337,6 +337,19 @@ class Taint(ast.NodeVisitor):
                 return False
             return any(self.expr_maybe(a) for a in e.args) or any(self.expr_maybe(k.value) for k in e.keywords) or (isinstance(fn, ast.Attribute) and self.expr_maybe(fn.value))
         if isinstance(e, ast.BoolOp):
+            if isinstance(e.op, ast.Or):
+                # `isbox(v) or <test on the value of v>`: the value test is only reached when v is NOT traced, so it cannot freeze a branch into a graph
+                guarded = set()
+                for v in e.values:
+                    if isinstance(v, ast.Call) and isinstance(v.func, ast.Name) and v.func.id == "isbox" and len(v.args) == 1 and isinstance(v.args[0], ast.Name):
+                        guarded.add(v.args[0].id)
+                        continue
+                    names = {n.id for n in ast.walk(v) if isinstance(n, ast.Name) and n.id in self.maybe}
+                    if names and names <= guarded:
+                        continue
+                    if self.expr_maybe(v):
+                        return True
+                return False
             return any(self.expr_maybe(v) for v in e.values)
         if isinstance(e, (ast.BinOp,)):
             return self.expr_maybe(e.left) or self.expr_maybe(e.right)
